@@ -45,25 +45,35 @@ def boundaryHeaps : List (List Spec.Block × Bytes) :=
   -- version boundaries
   let p5 := Gen.mkPage [([], t)] [.normal 0] 16 1
   let p6 := Gen.mkPage [([], t)] [.normal 0] 16 10
+  -- outside Page.WF (spec silent, model vs code): NORMAL pointers naming the same slot — two to one tuple, aliases mixed
+  -- with other pointers, a whole array of 291 aliases of one tuple (the class of the repaired finding C10-page-alias)
+  let t2 := Gen.plainTuple 0x0100 2 [9, 9]
+  let d1 := Gen.mkPage [([], t)] [.normal 0, .normal 0] 8
+  let d2 := Gen.mkPage [([], t), ([7], t2)] [.normal 1, .normal 0, .normal 1, .other 0 0 0, .normal 0, .other 60 3 28] 8
+  let d3 := Gen.mkPage [([], t)] (List.replicate 291 (.normal 0)) 0
   [([.page p1], []), ([.page p2], []), ([.page p3], []), ([.page p4], []), ([.page p5], []), ([.page p6], []),
-   ([.zero, .page p1, .zero, .page p4], [1, 2, 3]), ([], []), ([], [0, 0, 0]), ([.zero], zeros 8191)]
+   ([.zero, .page p1, .zero, .page p4], [1, 2, 3]), ([], []), ([], [0, 0, 0]), ([.zero], zeros 8191),
+   ([.page d1], []), ([.page d2], []), ([.page d3], []), ([.page p4, .page d2, .page p1], [5])]
 
 def heapscanGen (seed idx size : Nat) : Case :=
   let (bs, tail) :=
     if idx < boundaryHeaps.length then boundaryHeaps.getD idx default
-    else (Gen.genHeap size).run' (Prng.ofSeed seed idx)
+    else (Gen.genHeap size true).run' (Prng.ofSeed seed idx)
   let vis := idx % 2 == 1
   let file := Spec.encHeap bs tail
   let model := Model.readTuples file vis
   let view := (Spec.scanView bs).filter fun v => !vis || Spec.liveBits v.infomask
+  -- a page on which two NORMAL pointers name one slot is outside Page.WF: the spec is silent about it
+  let dup := bs.any Gen.blockHasDup
   let nNormal := (Spec.scanView bs).length
   let maxLps := (bs.map fun b => match b with | .page p => p.lps.length | .zero => 0).foldl max 0
   let hasMax := bs.any fun b => match b with | .page p => p.slots.any (fun s => s.2.len == 8164) | .zero => false
   let tags := [s!"pages={bs.length}", (if tail.isEmpty then "tail=0" else "tail=partial"),
                (if maxLps < 40 then "lps<40" else if maxLps < 200 then "lps<200" else "lps>=200")] ++ (if hasMax then ["maxtuple"] else []) ++ [
                (if nNormal == 0 then "tuples=0" else if nNormal < 10 then "tuples<10" else "tuples>=10")] ++
-              (if view.length > 0 then ["nt"] else [])
-  { tags, model := showM showEntries model, spec := showViews view, args := [b2s vis, hexRle file] }
+              (if view.length > 0 then ["nt"] else []) ++
+              (if dup then ["dupslot"] else if bs.all Gen.blockWF then ["wf"] else ["nonwf"])
+  { tags, model := showM showEntries model, spec := if dup then "-" else showViews view, args := [b2s vis, hexRle file] }
 
 def heapscan : Family := { name := "heapscan", gen := heapscanGen, eval := heapscanEval, fixed := boundaryHeaps.length }
 
@@ -104,20 +114,34 @@ def pagedirectEval (args : List String) : String :=
   | [pg] => showM (fun ts => joinWith ";" (ts.map showTuple)) (Model.parsePage (unhex pg))
   | _ => "bad-args"
 
+/-- deterministic pages with NORMAL pointers naming the same slot (outside Page.WF; ParsePage reports the shared tuple
+once, at the first pointer that names it) -/
+def dupPages : List Spec.Page :=
+  let t := Gen.plainTuple 0x0900 1 [1, 2, 3, 4]
+  let t2 := Gen.plainTuple 0x0500 3 [5]
+  [ Gen.mkPage [([], t)] [.normal 0, .normal 0] 0,
+    Gen.mkPage [([], t), ([], t2)] [.normal 0, .normal 1, .normal 0, .normal 1] 12,
+    Gen.mkPage [([1, 2], t), ([], t2), ([3], t)] [.normal 2, .other 0 0 0, .normal 2, .normal 0, .other 9 2 0, .normal 1, .normal 0] 40,
+    Gen.mkPage [([], t2)] (List.replicate 1021 (.normal 0)) 0 ]
+
 def pagedirectGen (seed idx size : Nat) : Case :=
-  let (p, extra) := ((do
-      let p ← if idx % 16 == 3 then Gen.genMaxTuplePage else if idx % 16 == 11 then Gen.genFullPointerPage else Gen.genPage size
+  let (p, extra) :=
+    if idx < dupPages.length then (dupPages.getD idx default, [])
+    else ((do
+      let p ← if idx % 16 == 3 then Gen.genMaxTuplePage else if idx % 16 == 11 then Gen.genFullPointerPage else Gen.genPage size true
       let extra ← if ← Gen.prob 1 4 then Gen.bytes (← Gen.range 1 40) else pure []
       pure (p, extra)) : Gen _).run' (Prng.ofSeed seed idx)
   let bytes := Spec.encPage p ++ extra
   let view := p.normalTuples.map (Spec.tupleView 0)
+  let dup := Gen.pageHasDup p
   { tags := [if extra.isEmpty then "exact" else "trailing", if view.isEmpty then "empty" else "nt",
              (if p.lps.length == 0 then "lps=0" else if p.lps.length < 40 then "lps<40" else if p.lps.length < 200 then "lps<200" else "lps>=200"),
-             (if p.slots.any (fun s => s.2.len == 8164) then "maxtuple" else "nomaxtuple")],
+             (if p.slots.any (fun s => s.2.len == 8164) then "maxtuple" else "nomaxtuple"),
+             (if dup then "dupslot" else if Gen.pageWF p then "wf" else "nonwf")],
     model := showM (fun ts => joinWith ";" (ts.map showTuple)) (Model.parsePage bytes),
-    spec := showViews view, args := [hexRle bytes] }
+    spec := if dup then "-" else showViews view, args := [hexRle bytes] }
 
-def pagedirect : Family := { name := "pagedirect", gen := pagedirectGen, eval := pagedirectEval }
+def pagedirect : Family := { name := "pagedirect", gen := pagedirectGen, eval := pagedirectEval, fixed := dupPages.length }
 
 /-- args: tuple bytes -/
 def tupledirectEval (args : List String) : String :=
@@ -152,8 +176,8 @@ def concatEval (args : List String) : String :=
 
 def concatGen (seed idx size : Nat) : Case :=
   let (a, b) := ((do
-      let (ba, _) ← Gen.genHeap size
-      let (bb, tb) ← Gen.genHeap size
+      let (ba, _) ← Gen.genHeap size true
+      let (bb, tb) ← Gen.genHeap size true
       let a := Spec.encHeap ba []
       let b := Spec.encHeap bb tb
       -- half of the cases: corrupt one side arbitrarily (the law holds for arbitrary bytes)
@@ -199,13 +223,22 @@ def craftedPages : List Bytes :=
     set 24 4 (8169 + 2^15 + 2^17 * 23) p,                    -- bare 23-byte tuple at the very end
     set 24 4 (8170 + 2^15 + 2^17 * 23) p,
     set 24 4 (32767 + 2^15 + 2^17 * 32767) p,
-    p.take 8191, p ++ p.take 100 ]
+    p.take 8191, p ++ p.take 100,
+    -- overlapping storage (fix heap/02: the first claim on the bytes wins).  `p`: pd_upper 48, tuples of 28 bytes at 48 and 76
+    set 24 4 (48 + 2^15 + 2^17 * 56) p,                                          -- #0 covers both tuples: #1 is skipped
+    set 28 4 (48 + 2^15 + 2^17 * 56) (set 24 4 (76 + 2^15 + 2^17 * 28) p),       -- the other way round
+    set 28 4 (75 + 2^15 + 2^17 * 29) p,                                          -- #1 overlaps #0 by ONE byte
+    set 28 4 (48 + 2^15 + 2^17 * 28) (set 24 4 (48 + 2^15 + 2^17 * 10) p),       -- #0 too short to be a tuple: claims nothing, #1 (same bytes) is reported
+    set 28 4 (48 + 2^15 + 2^17 * 28) (set 24 4 (48 + 2 * 2^15 + 2^17 * 28) p),   -- #0 is a REDIRECT with the same offset/length: claims nothing
+    set 28 4 (48 + 2^15 + 2^17 * 28) p,                                          -- two pointers to the tuple at 48
+    set 28 4 (104 + 2^15 + 2^17 * 8088) (set 24 4 (48 + 2^15 + 2^17 * 8144) p),  -- [48, 8192) then [104, 8192)
+    set 28 4 (20 + 2^15 + 2^17 * 100) p ]                                        -- below pd_upper (into the header): rejected before the guard
 
 def heapmutGen (seed idx size : Nat) : Case :=
   let file : Bytes :=
     if idx < craftedPages.length then craftedPages.getD idx []
     else
-      (do let (bs, tail) ← Gen.genHeap size
+      (do let (bs, tail) ← Gen.genHeap size true
           let f := Spec.encHeap bs tail
           let np := f.length / 8192
           let pg ← Gen.below (max np 1)
